@@ -14,7 +14,7 @@ RULE = (
     "exhaustive: every (n,k) with n<=N_EX, k<=4, whole index range compared with sorted(descending itertools.combinations); "
     "sampled: n in 41..6000, k in 1..4, index biased to first/last/C(m,k) boundaries, checked by rank(unrank(i))==i, "
     "strict descent, range and colex-successor; kernel: recorded triples of dbal_fast_gauss_scoring_vectorized for "
-    "n in 3..40 and budgets around C(n,3); behavioural kernel cases: for n<=6 the score must equal the estimator over SOME set of min(budget,C(n,3)) distinct triples "
+    "n in 3..40 and budgets around C(n,3); behavioural kernel cases (distance weight 1, 2, 8 or 0.5; with a non-default weight the samples form two far-apart groups of near-identical predictions, distances spanning 10^-9..1): for n<=6 the score must equal the estimator over SOME set of min(budget,C(n,3)) distinct triples "
     "(subset search), and for n in 30..400 a scripted generator hands the kernel indices at the C(a,3) block boundaries and the score must equal the estimator over the "
     "triples those indices denote (own unranking); many-triple cases: n in 20..40 with a budget covering all C(n,3) in 1140..9880 triples (incl. the default 5000) must give the estimator over every triple once, and 1025..4100 scripted indices (non-round counts) the estimator over exactly those. Non-trivial = k>=2 and the index range has an interior (C(n,k)>=3) "
     "[exhaustive (n,k) pairs], or k>=2 and index neither first nor last [sampled], or a kernel case with n>=4. "
@@ -131,7 +131,7 @@ def _unrank3(i):
     return (a, b, rem - math.comb(b, 2))
 
 
-def _triple_terms(preds, var, d, triples):
+def _triple_terms(preds, var, d, triples, df=1.0):
     """log of each triple's summand of the documented estimator, one plate; preds/var: (n, E)."""
     import numpy as np
 
@@ -142,7 +142,7 @@ def _triple_terms(preds, var, d, triples):
     quad = vk * (preds[i] - preds[j]) ** 2 + vj * (preds[i] - preds[k]) ** 2 + vi * (preds[j] - preds[k]) ** 2
     body = np.sum(-0.5 * np.log(alpha) - 0.5 * vi * vj * vk / alpha**2 * quad, axis=1)
     with np.errstate(divide="ignore"):
-        return np.log(d[i, j] + d[j, k] + d[i, k]) + body
+        return df * np.log(d[i, j] + d[j, k] + d[i, k]) + body
 
 
 def _lse(x):
@@ -239,21 +239,30 @@ def _behavioural_kernel(case, gd):
     preds = r.normal(size=(n, E))
     var = 10.0 ** r.uniform(-1, 1, size=(n, E))
     d = r.uniform(0.1, 2.0, size=(n, n))
+    # a non-default distance weight (public option of the kernel) and, then, distances over several orders of magnitude
+    df = [1.0, 1.0, 2.0, 8.0, 0.5][case["seed"] % 5]
+    if case["seed"] % 5 >= 2:
+        # posterior samples in two groups: those of one group predict almost the same (tiny distances among them, 10^-9..10^-5),
+        # the groups are far apart; the predictions follow the groups, so the close triples carry the weight of the estimator
+        x = np.where(np.arange(n) % 2 == 0, 0.0, 1.0) + 10.0 ** r.uniform(-4.5, -2.5, size=n) * r.choice([-1.0, 1.0], size=n)
+        d = 0.5 * (x[:, None] - x[None, :]) ** 2
+        preds = 25.0 * x[:, None] + 0.01 * r.normal(size=(n, E))
     d = d + d.T
     np.fill_diagonal(d, 0)
     c = math.comb(n, 3)
+    kw = {} if df == 1.0 else {"distance_factor": df}
     if case["kind"] == "kernel_all_many":
         # the budget covers all C(n,3) > 1024 triples: the score is the estimator over every triple exactly once
-        score = float(f(preds[None], var[None], d, np.random.default_rng(case["seed"] + 1), max_combos=case["budget"])[0])
+        score = float(f(preds[None], var[None], d, np.random.default_rng(case["seed"] + 1), max_combos=case["budget"], **kw)[0])
         all_triples = [tuple(sorted(x, reverse=True)) for x in itertools.combinations(range(n), 3)]
-        expect = _lse(_triple_terms(preds, var, d, all_triples))
+        expect = _lse(_triple_terms(preds, var, d, all_triples, df))
         require(abs(score - expect) <= 1e-9 * (1 + abs(expect)), "kernel.all_triples_once", lambda: "n=%d budget=%d: the score is %r, the estimator over each of the %d triples exactly once is %r (exp difference x count: %r)" % (n, case["budget"], score, c, expect, (math.exp(score - expect) - 1) * c))
         return {"nontrivial": True, "labels": ["kernel_all_many.triples>=%d" % (1024 * (c // 1024))]}
     if case["kind"] == "kernel_subset":
         b = min(case["budget"], c)
-        score = float(f(preds[None], var[None], d, np.random.default_rng(case["seed"] + 1), max_combos=case["budget"])[0])
+        score = float(f(preds[None], var[None], d, np.random.default_rng(case["seed"] + 1), max_combos=case["budget"], **kw)[0])
         all_triples = [tuple(sorted(x, reverse=True)) for x in itertools.combinations(range(n), 3)]
-        terms = _triple_terms(preds, var, d, all_triples)
+        terms = _triple_terms(preds, var, d, all_triples, df)
         ok = False
         for S in itertools.combinations(range(c), b):
             if abs(_lse(terms[list(S)]) - score) <= 1e-9 * (1 + abs(score)):
@@ -291,11 +300,11 @@ def _behavioural_kernel(case, gd):
             raise Skip()
 
     g = Scripted()
-    score = float(f(preds[None], var[None], d, g, max_combos=len(idx))[0])
+    score = float(f(preds[None], var[None], d, g, max_combos=len(idx), **kw)[0])
     if not g.used:
         raise Skip()
     triples = [_unrank3(i) for i in idx]
-    expect = _lse(_triple_terms(preds, var, d, triples))
+    expect = _lse(_triple_terms(preds, var, d, triples, df))
     require(abs(score - expect) <= 1e-9 * (1 + abs(expect)), "kernel.uses_the_unranked_triples", lambda: "n=%d: with the sampled indices %r... the score is %r, the estimator over the triples those indices denote is %r" % (n, idx[:6], score, expect))
     if case["kind"] == "kernel_scripted_many":
         return {"nontrivial": True, "labels": ["kernel_scripted_many"], "counts": {"scripted_indices": len(idx)}}
